@@ -5,7 +5,7 @@ Import ListNotations.
 Open Scope N_scope.
 Ltac Zify.zify_post_hook ::= Z.to_euclidean_division_equations.
 
-Definition dgram_ok (mx : N) (d : bytes) : Prop := 1 <= lenN d /\ lenN d <= mx.
+Definition dgram_ok (mx : N) (d : bytes) : Prop := lenN d <= mx.
 
 Section Udp.
 Variable mx : N.
@@ -22,10 +22,12 @@ Proof. intros H. unfold udp_encode. destruct (N.ltb_spec mx (lenN d)); [reflexiv
 
 Lemma udp_read1_frame d rest : dgram_ok mx d -> udp_read1 mx (udp_frame d ++ rest) = Accept d rest.
 Proof.
-  intros [H1 H2]. unfold udp_read1, udp_read1_prog, udp_frame. rewrite <- app_assoc.
+  intros H2. unfold dgram_ok in H2. unfold udp_read1, udp_read1_prog, udp_frame. rewrite <- app_assoc.
   rewrite run_exact_app by reflexivity. rewrite de16_of_be16 by lia.
-  destruct (N.eqb_spec (lenN d) 0); [lia|]. destruct (N.ltb_spec mx (lenN d)); [lia|].
-  rewrite run_exact_app by reflexivity. reflexivity.
+  destruct (N.eqb_spec (lenN d) 0) as [E0|E0].
+  - apply lenN_zero_nil in E0. subst d. reflexivity.
+  - destruct (N.ltb_spec mx (lenN d)); [lia|].
+    rewrite run_exact_app by reflexivity. reflexivity.
 Qed.
 
 Lemma udp_read1_exact_only : exact_only E_EOF (udp_read1_prog mx).
@@ -37,13 +39,12 @@ Qed.
 (* the decode loop returns exactly the datagrams that were framed, in order, one per frame *)
 Lemma udp_loop_frames ds : forall fuel rest,
   Forall (dgram_ok mx) ds -> udp_read1 mx rest = NeedMore -> (length ds < fuel)%nat ->
-  udp_loop fuel mx (concat (map udp_frame ds) ++ rest) = (ds, UMore rest).
+  udp_loop fuel false mx (concat (map udp_frame ds) ++ rest) = (ds, UMore rest).
 Proof.
   induction ds as [|d ds IH]; intros fuel rest Hall Hn Hf.
   - destruct fuel as [|k]; [lia|]. cbn [map concat app udp_loop]. rewrite Hn. reflexivity.
   - destruct fuel as [|k]; [cbn in Hf; lia|]. inversion Hall as [|? ? Hd Hds]; subst.
-    cbn [map concat udp_loop]. rewrite <- app_assoc, (udp_read1_frame d _ Hd).
-    destruct d as [|x d]; [destruct Hd as [Hd _]; rewrite lenN_nil in Hd; lia|]. cbn [is_nil].
+    cbn [map concat udp_loop]. rewrite <- app_assoc, (udp_read1_frame d _ Hd). cbn [andb].
     rewrite (IH k rest Hds Hn) by (cbn in Hf; lia). reflexivity.
 Qed.
 
@@ -54,7 +55,7 @@ Proof.
 Qed.
 
 Lemma udp_roundtrip ds :
-  Forall (dgram_ok mx) ds -> udp_decode_all mx (concat (map udp_frame ds)) = (ds, UMore []).
+  Forall (dgram_ok mx) ds -> udp_decode_all false mx (concat (map udp_frame ds)) = (ds, UMore []).
 Proof.
   intros Hall. unfold udp_decode_all.
   rewrite <- (app_nil_r (concat (map udp_frame ds))) at 2.
@@ -64,7 +65,7 @@ Qed.
 (* a truncated trailing frame is left undecoded, nothing before it is lost *)
 Lemma udp_roundtrip_tail ds tail :
   Forall (dgram_ok mx) ds -> udp_read1 mx tail = NeedMore ->
-  udp_decode_all mx (concat (map udp_frame ds) ++ tail) = (ds, UMore tail).
+  udp_decode_all false mx (concat (map udp_frame ds) ++ tail) = (ds, UMore tail).
 Proof.
   intros Hall Hn. unfold udp_decode_all. apply udp_loop_frames; [exact Hall | exact Hn|].
   rewrite app_length. pose proof (frames_length ds). lia.
@@ -74,7 +75,7 @@ Qed.
 Lemma udp_loop_rd_frames ds : forall fuel st rest,
   rd_wf st -> rd_pending_bytes st = concat (map udp_frame ds) ++ rest ->
   Forall (dgram_ok mx) ds -> udp_read1 mx rest = NeedMore -> (length ds < fuel)%nat ->
-  exists st', udp_loop_rd fuel mx st = (st', ds, if rclosed st then SFail E_EOF else SPending).
+  exists st', udp_loop_rd fuel false mx st = (st', ds, if rclosed st then SFail E_EOF else SPending).
 Proof.
   induction ds as [|d ds IH]; intros fuel st rest Hwf Hp Hall Hn Hf.
   - destruct fuel as [|k]; [lia|]. cbn [map concat app] in Hp. cbn [udp_loop_rd].
@@ -86,14 +87,14 @@ Proof.
     destruct (run_rd_accept (udp_read1_prog mx) st d (concat (map udp_frame ds) ++ rest) Hwf)
       as (st' & Hr & Hp' & Hc' & Hwf').
     + rewrite Hp. apply udp_read1_frame. exact Hd.
-    + rewrite Hr. destruct d as [|x d]; [destruct Hd as [Hd _]; rewrite lenN_nil in Hd; lia|]. cbn [is_nil].
+    + rewrite Hr. cbn [andb].
       destruct (IH k st' rest Hwf' Hp' Hds Hn ltac:(cbn in Hf; lia)) as (st'' & Hl).
       rewrite Hl, Hc'. exists st''. reflexivity.
 Qed.
 
 Lemma udp_chunking ds chunks closed :
   Forall (dgram_ok mx) ds -> concat chunks = concat (map udp_frame ds) ->
-  udp_stream_rd mx chunks closed = (ds, if closed then SFail E_EOF else SPending).
+  udp_stream_rd false mx chunks closed = (ds, if closed then SFail E_EOF else SPending).
 Proof.
   intros Hall Hc. unfold udp_stream_rd.
   destruct (udp_loop_rd_frames ds (S (length (concat chunks))) (rd_of_chunks chunks closed) []
@@ -110,10 +111,10 @@ Qed.
 Definition sres_of_uend (e : uend) : sres unit :=
   match e with UMore _ => SPending | UStop _ => SDone tt | UErr x => SFail x end.
 
-Lemma udp_loop_rd_open fuel : forall st,
+Lemma udp_loop_rd_open stop fuel : forall st,
   rd_wf st -> rclosed st = false ->
-  exists st', udp_loop_rd fuel mx st =
-    (st', fst (udp_loop fuel mx (rd_pending_bytes st)), sres_of_uend (snd (udp_loop fuel mx (rd_pending_bytes st)))).
+  exists st', udp_loop_rd fuel stop mx st =
+    (st', fst (udp_loop fuel stop mx (rd_pending_bytes st)), sres_of_uend (snd (udp_loop fuel stop mx (rd_pending_bytes st)))).
 Proof.
   induction fuel as [|k IH]; intros st Hwf Hc.
   - exists st. reflexivity.
@@ -122,10 +123,10 @@ Proof.
     destruct (run_bytes (udp_read1_prog mx) (rd_pending_bytes st)) as [|e|d r].
     + destruct Ho as (st' & ->). exists st'. reflexivity.
     + destruct Ho as (st' & ->). exists st'. reflexivity.
-    + destruct Ho as (st' & -> & Hp & Hc' & Hwf'). destruct (is_nil d).
+    + destruct Ho as (st' & -> & Hp & Hc' & Hwf'). destruct (stop && is_nil d).
       * exists st'. reflexivity.
       * destruct (IH st' Hwf' Hc') as (st'' & Hl). rewrite Hl, Hp.
-        destruct (udp_loop k mx r) as [ds e]. exists st''. reflexivity.
+        destruct (udp_loop k stop mx r) as [ds e]. exists st''. reflexivity.
 Qed.
 
 End Udp.
@@ -135,3 +136,15 @@ Lemma udp_fits_frame d : lenN d <= 65507 -> lenN (udp_frame d) <= encode_max_pay
 Proof.
   intros H. unfold udp_frame. rewrite lenN_app, encode_max_payload_u16. unfold be16, lenN at 1. cbn [length]. lia.
 Qed.
+
+(* the code's parameters (regenerated): both sides allow 65535, neither loop stops at an empty datagram,
+   and the server's socket follows the family of the target *)
+Lemma udp_code_params : forall side,
+  udp_max side <= 65535 /\ udp_stop side = false.
+Proof.
+  destruct udp_max_both_u16 as [Hc Hs]. destruct udp_empty_datagram_forwarded as [Ec Es].
+  intros [|]; unfold udp_max, udp_stop; rewrite ?Hc, ?Hs, ?Ec, ?Es; split; (lia || reflexivity).
+Qed.
+
+Lemma udp_bind_can_send t : udp_can_send (udp_bind_fam t) t = true.
+Proof. unfold udp_bind_fam. rewrite udp_bind_follows_target. destruct t; reflexivity. Qed.
